@@ -21,7 +21,9 @@ pub fn check_dec(drv: &mut Driver, ev: &mut Ev, case: &DecCase, enumerated: bool
     ev.count("fill-diff.decode-histories");
     if case.stream.iter().any(|b| *b >= 0x80) { if enumerated { ev.nontrivial_enum(); } else { ev.nontrivial_hash(case.hash()); } }
     if tr { for (k, r) in runs.iter().enumerate() { println!("TRACE fill={:02x} {} | calls: {} | items: [{}]", FILLS[k], case.describe(), fmt_calls(&r.calls), fmt_items(&r.items)); } }
-    if runs.iter().any(|r| r.fail_of(&[FailKind::Panic, FailKind::Stuck]).is_some()) { ev.count("fill-diff.aborted(panic/stuck: C06/C08)"); return; }
+    { let nfail = runs.iter().filter(|r| r.fail_of(&[FailKind::Panic, FailKind::Stuck]).is_some()).count();
+      if nfail == 3 { ev.count("fill-diff.aborted(panic/stuck with every fill: C06/C08)"); return; }
+      if nfail > 0 { ev.violation("fill-diff", &format!("decode:{}:{:?}:completes-for-some-fills-only", crate::c01::family(case.enc), case.sink), format!("the history panics / gets stuck for {} of the three destination fill patterns only | {}", nfail, case.describe())); return; } }
     for k in 1..3 {
         if runs[k].calls != runs[0].calls || runs[k].items != runs[0].items {
             let ci = runs[k].calls.iter().zip(runs[0].calls.iter()).position(|(a, b)| a != b).unwrap_or(0);
